@@ -74,7 +74,7 @@ func main() {
 		defer xsync.VerifSetHook(nil)
 		if r.VariantHas("sweep") {
 			xsync.VerifSetHook(nil)
-			r.Cases("trig-sweep", r.Scale(24, 200), 1, func(c *vkit.Case) { trigSweep(c) })
+			r.Cases("trig-sweep", r.Scale(24, 100), 1, func(c *vkit.Case) { trigSweep(c) })
 			r.Floor("trigger sweep rounds", r.Table("trig-sweep", "rounds"), 300000)
 			return
 		}
